@@ -316,6 +316,7 @@ CHECK_DEADLOCK FALSE
     names = ["%s:%s" % s if isinstance(s, tuple) else s for s in canon]
     ranks = {n: i + 1 for i, n in enumerate(sorted(names))}
     ev = []
+    rkid = {}
     for si, sp in enumerate(spell + ["add_server"]):
         HashClient.client_class = Stub
         try:
@@ -338,6 +339,19 @@ CHECK_DEADLOCK FALSE
             nm = "%s:%s" % srv if isinstance(srv, tuple) else srv
             ev.append({"e": "place", "k": kid[k], "sc": [[ranks.get(n, 0)] + word(murmur3_32("%s-%s" % (n, k))) for n in hc.hasher.nodes],
                        "w": ranks.get(nm, 0)})
+        # (routing key, key) pairs: the placement is that of the routing key alone, whatever the key part is -- routing keys of
+        # length 0, 1, 2 (a 2-character str is not a pair) and ordinary ones; the key part varies and never matters
+        for rk in ["", "0", "ab", keys[0], keys[1], keys[2]]:
+            for kpart in ("item", b"item", keys[5], "", rk):
+                try:
+                    cl, bare = hc._get_client((rk, kpart))
+                except Exception:   # noqa -- a routing key the client refuses is not placed at all
+                    continue
+                srv = cl.server
+                nm = "%s:%s" % srv if isinstance(srv, tuple) else srv
+                ev.append({"e": "place", "k": rkid.setdefault(rk, kid.get(rk, len(kid) + 1 + len(rkid))),
+                           "sc": [[ranks.get(n, 0)] + word(murmur3_32("%s-%s" % (n, rk))) for n in hc.hasher.nodes],
+                           "w": ranks.get(nm, 0) if bare == kpart else 0})
     traces.append({"h": {}, "ev": ev, "what": ("spellings",)})
     # a server the client refuses (malformed address, real Client class: it validates the address): nothing changes
     ev = []
